@@ -1009,15 +1009,27 @@ def _channel_model(ctx, rep):
     bad = []
     rows = 0
     try:
-        for compress in (True, False):
+        class _Missing:
+            """what rpyc.lib.safe_import gives for a module that is not there: falsy, any attribute access raises ImportError"""
+            mi_native = True
+
+            def __bool__(self):
+                return False
+
+            def __getattr__(self, name):
+                if name.startswith("mi_") or name.startswith("__"):
+                    raise AttributeError(name)
+                raise MI.Raised("ImportError")
+        for compress, zmod in ((True, zl), (False, zl), ("asked for, but zlib is not available", _Missing())):
+            have_z = zmod is zl
             for seq in seqs:
                 rows += 1
-                extra = {"__methods__": meths, "__max_iter__": 500, "__globals__": {"zlib": zl}}
+                extra = {"__methods__": meths, "__max_iter__": 500, "__globals__": {"zlib": zmod}}
                 extra["__global_lookup__"] = K.module_function_lookup(ctx, c.module, extra, skip=("zlib",))
                 out_stream = _Stream()
                 st = {"FRAME_HEADER": _Struct(hdr.format), "FLUSHER": flusher, "COMPRESSION_THRESHOLD": thr,
                       "COMPRESSION_LEVEL": ctx.class_const(CH, "COMPRESSION_LEVEL")}
-                MI.call_method(meths["__init__"], st, [out_stream, compress], extra)
+                MI.call_method(meths["__init__"], st, [out_stream, bool(compress)], extra)
                 label = "compress=%s, packets of %s bytes" % (compress, [len(p) for p in seq])
                 try:
                     for p in seq:
@@ -1039,7 +1051,7 @@ def _channel_model(ctx, rep):
                     ln, fl = _struct.unpack(hdr.format, wire[pos:pos + hs])
                     body = wire[pos + hs:pos + hs + ln]
                     tail = wire[pos + hs + ln:pos + hs + ln + len(flusher)]
-                    want_c = compress and len(p) > thr
+                    want_c = bool(compress) and have_z and len(p) > thr
                     want_body = comp_of.get(p) if want_c else p
                     if want_c and want_body is None:
                         want_body = b"<never compressed>"
@@ -1060,7 +1072,7 @@ def _channel_model(ctx, rep):
                 in_stream = _Stream(wire)
                 st2 = {"FRAME_HEADER": _Struct(hdr.format), "FLUSHER": flusher, "COMPRESSION_THRESHOLD": thr,
                        "COMPRESSION_LEVEL": ctx.class_const(CH, "COMPRESSION_LEVEL")}
-                MI.call_method(meths["__init__"], st2, [in_stream, not compress], extra)
+                MI.call_method(meths["__init__"], st2, [in_stream, not compress if have_z else True], extra)
                 got = []
                 try:
                     for _ in seq:
@@ -1126,7 +1138,11 @@ def _stream_model(ctx, rep):
                 else:
                     scripts = [("everything accepted", [None], None), ("one byte at a time", [1], None),
                                ("3, then 1, then all", [3, 1, None], None), ("half of each chunk", ["half"], None),
-                               ("connection reset at the second send", [2, "reset"], "eof"), ("connection reset at once", ["reset"], "eof")]
+                               ("connection reset at the second send", [2, "reset"], "eof"), ("connection reset at once", ["reset"], "eof"),
+                               # a would-block after a partial send: giving up (closed + EOFError) and retrying are both fine -
+                               # accepting the call while bytes are missing or duplicated is not
+                               ("3 bytes, then would-block, then all", [3, "eagain", None], "either"),
+                               ("would-block at once, then 2, then all", ["eagain", 2, None], "either")]
                 for label, script, outcome in scripts:
                     for want_n in ((1, 5, 7, 8, 9, 20) if op == "read" else (0, 1, 7, 8, 9, 23)):
                         rows += 1
@@ -1179,6 +1195,8 @@ def _stream_model(ctx, rep):
                                 pending.pop(0)
                             if item == "reset":
                                 fail("socket.error" if kind == "sock" else "OSError", _errno.ECONNRESET)
+                            if item == "eagain":
+                                fail("socket.error" if kind == "sock" else "OSError", _errno.EAGAIN)
                             n_ = len(chunk) if item is None else (max(1, len(chunk) // 2) if item == "half" else min(item, len(chunk)))
                             accepted.append(bytes(chunk[:n_]))
                             return n_
@@ -1232,7 +1250,14 @@ def _stream_model(ctx, rep):
                             except MI.Raised as r_:
                                 res = ("raise", r_.name)
                             will_fail = outcome == "eof" and want_n > 0 and not (script == [2, "reset"] and want_n <= 2)
-                            if will_fail:
+                            if outcome == "either":
+                                gave_up = res == ("raise", "EOFError") and closed
+                                complete = res == ("ok", None) and b"".join(accepted) == data
+                                if not (gave_up or complete) and want_n > 0:
+                                    bad.append("%s, write(%d bytes): %s; the descriptor accepted %r of %r" % (
+                                        label, want_n, "returns normally" if res[0] == "ok" else "raises " + res[1],
+                                        b"".join(accepted), data))
+                            elif will_fail:
                                 if res != ("raise", "EOFError") or not closed:
                                     bad.append("%s, write(%d bytes): %s%s, expected EOFError and a closed stream" % (
                                         label, want_n, res, "" if closed else " (stream left open)"))
